@@ -32,7 +32,7 @@ CLAIMED = {
  },
  "C02": {
   "text": "Generated abstract documents are spelled by a harness-owned lexical renderer (references, CDATA runs, CR/CRLF line ends, literal whitespace in attributes, alias prefixes, interleaved declarations, XML declaration, BOM, encodings) and parsed through every entry point; the tree read back must equal the document the renderer - not xot - says the text denotes, xml_id_node included; parse_fragment is additionally compared with parsing the text wrapped in one element.",
-  "note": "Trusted: the renderer's notion of what a spelling denotes (XML 1.0 line-end / attribute-value normalisation, Namespaces scoping). Attribute/declaration order not compared.",
+  "note": "Trusted: the renderer's notion of what a spelling denotes (XML 1.0 line-end / attribute-value normalisation, Namespaces scoping). Attribute/declaration order not compared. One recorded known finding (an XML declaration with a line break or TAB directly after '<?xml' is rejected by the tokenizer crate xot depends on) is excluded by construction and counted.",
   "technique": "property-based testing with generator-owned expected answer (inverse oracle) + metamorphic relation for fragments",
  },
  "C03": {
